@@ -358,7 +358,7 @@ def run_p_case(c, res):
                 "itsGnDefaultPacketLifetime": c["mib_life"]}
     lat, lon = c["lat"], c["lon"]
     # a neighbour a few metres away (kept inside the legal range)
-    nlat = clampd(lat + 300, -900000000, 900000000)
+    nlat = lat - 300 if lat > 0 else lat + 300          # never clamped at a pole: the neighbour is a few metres away
     nlon = clampd(lon + 300, -1800000000, 1800000000)
     with World() as w:
         try:
